@@ -85,6 +85,25 @@ pub fn gen_plan(rng: &mut Rng) -> Plan {
     for k in 0..first.len() as u64 {
         script.push(HOp::Get { k });
     }
+    // updates right after the restart must supersede what was recovered (sequence counter restored above everything on
+    // disk): remove / overwrite keys among the newest entries written before the close
+    for d in 0..4u64 {
+        let k = next_unique.saturating_sub(d * 7);
+        if d % 2 == 0 {
+            script.push(HOp::Remove { k });
+            script.push(HOp::Get { k });
+        } else {
+            script.push(HOp::Insert { k, size: 700, loc: Loc::Default });
+            script.push(HOp::EvictMem);
+            script.push(HOp::Wait);
+            script.push(HOp::Get { k });
+        }
+    }
+    script.push(HOp::Wait);
+    for d in 0..4u64 {
+        script.push(HOp::EvictMem);
+        script.push(HOp::Get { k: next_unique.saturating_sub(d * 7) });
+    }
     // a sample of the unique keys, oldest and newest
     for d in [1u64, 2, 3, 100, 171, 172, 254, 255] {
         script.push(HOp::Get { k: 10_000 + d });
